@@ -277,9 +277,14 @@ def validate_trace(trace_module, trace_path, scratch, cfg=None, group_marker=Non
 
 # ------------------------------------------------------------------ known findings
 def load_known():
-    p = os.path.join(VERIF, "known_findings.json")
-    if not os.path.exists(p):
-        return {}
-    with open(p) as f:
-        d = json.load(f)
-    return {e["id"]: e for e in d.get("findings", []) if e.get("status") == "known"}
+    """known_findings.json plus one file per extension stage under known_findings.d/ (same format; committed, never written at run time)"""
+    import glob
+    files = [os.path.join(VERIF, "known_findings.json")] + sorted(glob.glob(os.path.join(VERIF, "known_findings.d", "*.json")))
+    res = {}
+    for p in files:
+        if not os.path.exists(p):
+            continue
+        with open(p) as f:
+            d = json.load(f)
+        res.update({e["id"]: e for e in d.get("findings", []) if e.get("status") == "known"})
+    return res
